@@ -19,6 +19,7 @@
 #include <functional>
 #include <thread>
 #include <mutex>
+#include <atomic>
 #if defined(_OPENMP)
 #include <omp.h>
 #endif
@@ -93,6 +94,28 @@ public:
   std::vector<std::string> last_bias_items;
   bool cvc_loop_ran = false, bias_loop_ran = false;
   std::vector<int> last_item_threads;          // (C12) OpenMP thread of every item of the last component loop (smp omp)
+  // (C12) script callbacks: the engine has ONE interpreter.  Every entry records the thread and whether a parallel loop of the module
+  // is running; scripted variables must be combined in the serial collection phase on the main thread (only the scripted-force task may
+  // run inside the bias loop).  The interpreter has a single result slot, like Tcl's interp result.
+  std::atomic<int> loops_running{0};
+  std::atomic<int> callback_violations{0};
+  std::string first_callback_violation;
+  double interp_result = 0.0;
+  void note_callback(char const *what)
+  {
+    int const t = (eng->smp == "omp") ? colvarproxy_smp_thread() : my_thread_id;
+    bool const in_region = (loops_running.load() > 0)
+#if defined(_OPENMP)
+      || (omp_in_parallel() != 0)
+#endif
+      ;
+    if (in_region || t != 0) {
+      if (callback_violations.fetch_add(1) == 0) {
+        std::lock_guard<std::mutex> g(log_mutex);
+        first_callback_violation = std::string(what) + " thread=" + std::to_string(t) + " inside_parallel_loop=" + (in_region ? "1" : "0");
+      }
+    }
+  }
   static int colvarproxy_smp_thread()
   {
 #if defined(_OPENMP)
@@ -386,14 +409,19 @@ public:
       // (C12) the library's own loop; record which OpenMP thread ran each item (every entry is written by one thread only)
       last_item_threads.assign(n_items, -1);
       std::vector<int> *rec = &last_item_threads;
-      return colvarproxy_smp::smp_loop(n_items, [rec, &worker](int i) { (*rec)[i] = colvarproxy_smp_thread(); return worker(i); });
+      loops_running++;
+      int const ec = colvarproxy_smp::smp_loop(n_items, [rec, &worker](int i) { (*rec)[i] = colvarproxy_smp_thread(); return worker(i); });
+      loops_running--;
+      return ec;
     }
     last_item_threads.clear();
     // explicit permutation, items dealt to nthreads std::threads
     std::vector<int> order = schedule_order(n_items);
     int error_code = COLVARS_OK;
     std::vector<int> codes(std::max(1, eng->nthreads), 0);
+    loops_running++;
     run_schedule(order, [&](int i, int t) { codes[t] |= worker(i); }, true);
+    loops_running--;
     for (size_t t = 0; t < codes.size(); t++) error_code |= codes[t];
     return error_code;
   }
@@ -435,17 +463,22 @@ public:
   // its gradient with respect to every component is 1
   int run_colvar_callback(std::string const &name, std::vector<const colvarvalue *> const &cvcs, colvarvalue &value) override
   {
-    if (name != "vsum") return COLVARS_NOT_IMPLEMENTED;
+    if (name != "vsum" && name != "vdbl") return COLVARS_NOT_IMPLEMENTED;
+    note_callback("run_colvar_callback");
     cvm::real sum = 0.0;
     for (size_t i = 0; i < cvcs.size(); i++) sum += cvcs[i]->real_value;
-    value = colvarvalue(sum);
+    // the procedure leaves its result in the interpreter's single result slot; the caller fetches it afterwards
+    interp_result = (name == "vdbl") ? 2.0 * sum : sum;
+    std::this_thread::yield();
+    value = colvarvalue(interp_result);
     return COLVARS_OK;
   }
   int run_colvar_gradient_callback(std::string const &name, std::vector<const colvarvalue *> const & /* cvcs */,
                                    std::vector<cvm::matrix2d<cvm::real> > &gradient) override
   {
-    if (name != "vsum") return COLVARS_NOT_IMPLEMENTED;
-    for (size_t i = 0; i < gradient.size(); i++) gradient[i][0][0] = 1.0;
+    if (name != "vsum" && name != "vdbl") return COLVARS_NOT_IMPLEMENTED;
+    note_callback("run_colvar_gradient_callback");
+    for (size_t i = 0; i < gradient.size(); i++) gradient[i][0][0] = (name == "vdbl") ? 2.0 : 1.0;
     return COLVARS_OK;
   }
   // (C12) the scripted-force task: what a `calc_colvar_forces` Tcl procedure would do with `cv colvar <v> addforce <f>`
@@ -631,6 +664,10 @@ struct vsim_session {
     o << "STEP " << cvm::step_absolute();
     if (show["err"]) o << " err=" << vs_errclass(err | cvm::get_error());
     o << "\n";
+    if (proxy->callback_violations.load() > 0) {
+      o << "CBVIOL " << proxy->callback_violations.load() << " " << proxy->first_callback_violation << "\n";
+      proxy->callback_violations = 0;
+    }
     if (show["energy"]) o << "ENERGY " << vs_hex(proxy->bias_energy) << "\n";
     if (show["items"]) {
       if (proxy->cvc_loop_ran) {
